@@ -512,7 +512,7 @@ pub fn gen_config(r: &mut Rng, o: &GenOpts) -> GenOut {
 
 // ------------------------------------------------------------------ projection of events
 
-/// (section name, subsection, [(key, implicit, raw value text with continuations joined)])
+/// (section name, subsection, [(key, implicit, raw value text, continuation lines joined by backslash-LF)])
 pub type Proj = Vec<(Vec<u8>, Option<Vec<u8>>, Vec<(Vec<u8>, bool, Vec<u8>)>)>;
 
 /// Independent reading of the event stream: which keys with which raw value text live in which section.
@@ -543,6 +543,8 @@ pub fn project(ev: &Events<'_>) -> Proj {
                     if let Some(last) = kvs.last_mut() {
                         if open {
                             last.2.extend_from_slice(v.as_ref());
+                            // marks the continuation (whatever the line ending was)
+                            last.2.extend_from_slice(b"\\\n");
                             last.1 = !saw_sep;
                         }
                     }
